@@ -15,7 +15,8 @@ HUGE = "1" + "0" * 400          # a valid int and a float that overflows to inf
 DIGITS4301 = "9" * 4301          # str.isdigit() holds, int() refuses (CPython's 4300-digit limit), float() gives inf
 # " " = blank out keeping the columns; "\u00b3" (superscript three): isdigit() but neither int() nor float() accept it;
 # "\u0663" (Arabic-Indic three) and "1_0": accepted by int() and float() although str(int(w)) != w
-REPL = ["", " ", "abc", "0", "-1", HUGE, "nan", "inf", "1,2", "#", "\u00b3", "\u0663", "1_0", DIGITS4301]
+REPL = ["", " ", "abc", "0", "-1", HUGE, "nan", "inf", "1,2", "#", "\u00b3", "\u0663", "1_0", DIGITS4301,
+        "' Zz9'", "'Zz9 '", '"q r"']   # quoted values with inner / outer blanks (CIF strings; several tokens elsewhere)
 WATCHDOG_S = 5.0
 
 
@@ -397,6 +398,8 @@ def source_keywords(fmt):
                         words.add(w)
                     elif len(w) <= 3 and not any(ch.isalnum() or ch.isspace() for ch in w):
                         words.add(w)          # punctuation the parser looks for (comment / continuation marks, separators)
+                for w in re.findall(r"[A-Za-z_][A-Za-z0-9_]*=\\?\"?", n.value) if len(n.value) < 200 else ():
+                    words.add(w.replace("\\", ""))    # key=value / key="..." entries the parser searches for (also inside patterns)
     except (OSError, SyntaxError):
         pass
     _KW_CACHE[fmt] = sorted(words)
@@ -414,7 +417,18 @@ def keyword_documents(fmt, text, rng, limit):
     pos = sorted(set([0, 1, n // 2, max(0, n - 1), n] + ([rng.randrange(n + 1) for _ in range(2)] if n else [])))
     pos = [p for p in pos if 0 <= p <= n]
     docs = []
+    KV = ["1 0 0 0 1 0 0 0 1", "1 0 0 0 1 0 0 0 -1", "0 0 0 0 0 0 0 0 0", "1 2 3 2 4 6 0 0 1", "1 2 3", "1", "abc", "", "1e400 0 0 0 1 0 0 0 1", "nan 0 0 0 1 0 0 0 1"]
     for w in kws:
+        if w.endswith("=") or w.endswith('="'):
+            # a key=value entry: with several value shapes (counts, signs, degenerate / left-handed triples of vectors), quoted
+            # and bare, appended to each of the first lines and on a line of its own
+            key = w.rstrip('"')
+            for v in KV:
+                for ent in (key + '"' + v + '"', key + v.replace(" ", ","), key + v):
+                    for p in [q for q in (0, 1, 2, n - 1) if 0 <= q < n]:
+                        docs.append("\n".join(lines[:p] + [lines[p] + " " + ent] + lines[p + 1:]) + "\n")
+                    docs.append("\n".join(lines[:1] + [ent] + lines[1:]) + "\n")
+            continue
         if not (w[0].isalpha() or w[0] == "_"):
             # a punctuation mark of the parser: after / glued to the end of a line, alone on a line, before a line
             for p in pos + [n - 1]:
